@@ -203,13 +203,15 @@ class HObj:
 
 
 class HBytes:
-    """bytearray"""
+    """bytearray.  `length` (optional Int term) is the length when it is tracked outside the sequence theory: z3 unfolds
+    sequence variables of a large concrete length (16384 ...) element by element, so such lengths are never asserted on the term"""
 
-    def __init__(self, t):
+    def __init__(self, t, length=None):
         self.t = t
+        self.length = length
 
     def clone(self):
-        return HBytes(self.t)
+        return HBytes(self.t, self.length)
 
 
 class HList:
